@@ -101,9 +101,9 @@ Definition put_all (s : store) (ps : list (bytes * entry)) : store := fold_left 
    "a read returns a value written in full by one set, or a miss": [written] collects
    (key, data, flags) of every successful full write so far; mode 9: deadlines. *)
 Fixpoint run04 (mode : N) (bkeys ckeys : list bytes) (steps : list step04) (s a : store)
-               (written : list (bytes * bytes * N)) : N :=
+               (written : list (bytes * bytes * N)) (differed : bool) : N :=
   match steps with
-  | [] => 0
+  | [] => if differed then 1 else 0
   | st :: rest =>
       let now := t_now st in
       let q := t_req st in
@@ -135,13 +135,15 @@ Fixpoint run04 (mode : N) (bkeys ckeys : list bytes) (steps : list step04) (s a 
             match abs_entry d now k with Some e => (k, e_data e, e_flags e) :: written | None => written end
         | _, _ => written
         end in
-      if negb oracle then (if corr then 3 else 2)
-      else if negb corr then 1
-      else run04 mode bkeys ckeys rest s' a' written'
+      (* after a model/implementation difference the run continues from the implementation's
+         observed backend contents, so that a later oracle failure is still found *)
+      if negb oracle then (if corr && negb differed then 3 else 2)
+      else if negb corr then run04 mode bkeys ckeys rest d a' written' true
+      else run04 mode bkeys ckeys rest s' a' written' differed
   end.
 
 Definition check04 (mode : N) (c : case04) : N :=
-  run04 mode (c4_bkeys c) (c4_ckeys c) (c4_steps c) empty_store empty_store (c4_written c).
+  run04 mode (c4_bkeys c) (c4_ckeys c) (c4_steps c) empty_store empty_store (c4_written c) false.
 
 (* debugging aid *)
 Record dbg04 := mkD4 { d4_step : N; d4_res_model : hres; d4_res_obs : hres; d4_corr_res : bool; d4_corr_store : bool;
